@@ -10,6 +10,7 @@ def dispatch (j : Json) : Except String Json := do
   | "pair" => handlePair op j
   | "eam" => handleEam op j
   | "range" => handleRange op j
+  | "cutoff" => handleCutoff op j
   | _ => throw s!"unknown model {m}"
 
 def step (line : String) : String :=
